@@ -116,7 +116,7 @@ func genCase(t *rapid.T) Case {
 	}
 	nsteps := rapid.IntRange(1, maxSteps).Draw(t, "steps")
 	for len(c.Steps) < nsteps {
-		kind := rapid.SampledFrom([]string{"fault", "fault", "app", "mixed", "mixed", "partition", "flap"}).Draw(t, "stepKind")
+		kind := rapid.SampledFrom([]string{"fault", "fault", "app", "mixed", "mixed", "partition", "flap", "multihome"}).Draw(t, "stepKind")
 		chaos := rapid.SampledFrom([]int{0, 0, 8, maxChaos}).Draw(t, "chaos")
 		switch kind {
 		case "fault":
@@ -139,6 +139,22 @@ func genCase(t *rapid.T) Case {
 				} else {
 					st.Evs = append(st.Evs, genApp(t, m))
 				}
+			}
+			c.Steps = append(c.Steps, st)
+		case "multihome":
+			// two prefixes with two exit routers each, one exit router in common: what a router installs
+			// for one multi-homed prefix must not leak into the other (seeded C19-r8-1 shared one
+			// next-hop slice between the prefixes of the common exit router)
+			ups := m.routers(true)
+			if len(ups) < 3 {
+				continue
+			}
+			rs := rapid.Permutation(ups).Draw(t, "exitRouters")[:3]
+			ps := rapid.Permutation([]int{0, 1, 2, 3, 4}).Draw(t, "mhPrefixes")[:2]
+			st := Step{Chaos: chaos}
+			for _, a := range [][2]int{{rs[0], ps[0]}, {rs[1], ps[0]}, {rs[0], ps[1]}, {rs[2], ps[1]}} {
+				m.ann[a[0]][a[1]] = true
+				st.Evs = append(st.Evs, Ev{K: "ann", A: a[0], P: a[1], Gap: rapid.SampledFrom([]int{0, 0, 40, 700}).Draw(t, "mhGap")})
 			}
 			c.Steps = append(c.Steps, st)
 		case "flap":
